@@ -120,12 +120,45 @@ func checkHashProjection(c *fw.Ctx) {
 
 func checkUntrustedCtor(c *fw.Ctx, short string, fn *ssa.Function) {
 	rule := "1 redact-on-mismatch"
-	calls := fw.CallsTo(fn, false, hashCheckName)
-	if len(calls) != 1 {
-		c.Fail(rule, short+" checks the content hash", c.P.Pos(fn.Pos()), fmt.Sprintf("expected exactly one content-hash check, found %d", len(calls)))
+	// the check may live in an unexported helper the constructor ends with (`return finish(...)`):
+	// the analysis then runs in that helper, after showing that the constructor hands back
+	// exactly what the helper returns
+	dcs := deepCallsTo(fn, hashCheckName)
+	if len(dcs) == 0 {
+		c.Fail(rule, short+" checks the content hash", c.P.Pos(fn.Pos()), "no content-hash check is reachable from the constructor: a tampered event is returned unredacted")
 		return
 	}
-	hc := calls[0]
+	if len(dcs) > 1 {
+		c.Undecided(rule, short+" checks the content hash", fmt.Sprintf("%d content-hash checks found, the rule expects one", len(dcs)))
+		return
+	}
+	hc, hfr := dcs[0].Call, dcs[0].Fr
+	outer := fn
+	if hfr != nil {
+		if hfr.Parent != nil {
+			c.Undecided(rule, short+" checks the content hash", "the content-hash check is nested more than one helper deep")
+			return
+		}
+		site := hfr.Site
+		delegated := true
+		for _, r := range fw.Returns(fn) {
+			if !reachesInstr(site, r) || len(r.Results) == 0 {
+				continue
+			}
+			if cst, ok := r.Results[0].(*ssa.Const); ok && cst.Value == nil {
+				continue
+			}
+			ex, isEx := r.Results[0].(*ssa.Extract)
+			if !isEx || ex.Tuple != ssa.Value(site) || ex.Index != 0 {
+				delegated = false
+			}
+		}
+		if !delegated {
+			c.Undecided(rule, short+" checks the content hash", "the constructor does not simply return the result of "+fw.FuncName(hfr.Callee)+", in which the hash is checked")
+			return
+		}
+		fn = hfr.Callee
+	}
 	// the failure edge
 	var failBlock *ssa.BasicBlock
 	for _, iff := range fw.Ifs(fn) {
@@ -220,7 +253,7 @@ func checkUntrustedCtor(c *fw.Ctx, short string, fn *ssa.Function) {
 	}
 	c.Ok(rule2, short+": the hash is checked on canonicalised bytes", c.P.Pos(hc.Pos()), "")
 	pre := cc.Common().Args[0]
-	okStrip := fw.DerivesFrom(pre, fw.FlowSpec{IsSource: fw.IsResultOf(fw.NameIs("github.com/tidwall/sjson.DeleteBytes"), 0)})
+	okStrip := fw.DerivesFromIn(pre, hfr, fw.FlowSpec{IsSource: fw.IsResultOf(fw.NameIs("github.com/tidwall/sjson.DeleteBytes"), 0)})
 	c.Check(okStrip, rule2, short+": the hashed bytes are the stripped input", c.P.Pos(cc.Pos()), "", "the canonicalised bytes do not derive from the key-stripping deletions")
 	// stored eventJSON is the same value
 	okStore := false
@@ -231,10 +264,11 @@ func checkUntrustedCtor(c *fw.Ctx, short string, fn *ssa.Function) {
 	}
 	c.Check(okStore, rule2, short+": the stored JSON is the hashed JSON", c.P.Pos(hc.Pos()), "", "the eventJSON kept on the event is not the value whose hash was checked")
 	// decoded bytes: json.Unmarshal's input is the same stripped value
-	um := fw.CallsTo(fn, false, fw.NameIs("encoding/json.Unmarshal"))
+	um := fw.CallsTo(outer, false, fw.NameIs("encoding/json.Unmarshal"))
 	okUm := len(um) > 0
+	preRoot, _ := rootOf(pre, hfr)
 	for _, u := range um {
-		if u.Common().Args[0] != pre {
+		if a, _ := rootOf(u.Common().Args[0], nil); a != preRoot {
 			okUm = false
 		}
 	}
